@@ -51,6 +51,8 @@ def run(ctx):
   # the shutdown request arrives *while* a call is being served (the call then
   # fails: at even, or succeeds: at odd), at each position of the history
   units += [dict(part='shutdown', at=a, how='mid-call') for a in range(8)]
+  # the server object is stopped and started again once / twice
+  units += [dict(part='restart', at=a) for a in (1, 2)]
   ctx.rule = (
       f'{n} lazy expressions (grammar depth <= {depth}: add/mul/Box call, attr, '
       'item, nested chains, kwargs, cached calls at the root and nested, five '
@@ -58,7 +60,9 @@ def run(ctx):
       'CourierClient.get_result; 9 RemoteObject chains; remote iterators / '
       'RemoteIterator / RemoteIteratorQueue over sources of length 0-3; shutdown '
       'requested at each point of a 3-call history in 3 ways and in the middle '
-      'of a failing / succeeding call at each position; shutdown of a '
+      'of a failing / succeeding call at each position; 5 expressions (values '
+      'and errors) before and after the server object is stopped and started '
+      'again (1-2 times); shutdown of a '
       'prefetching server while a request is pending on a slow endless '
       'generator (delay bound 1); plus two clients '
       'x 3 calls against one server under delay bound '
